@@ -142,8 +142,13 @@ def run_case(case, res):
         coeffs = [rng.uniform(-1, 1) for _ in range(4)]
         # history on the SAME object: other trees (mirror image = same size, or unrelated) are set and used first
         for _ in range(rng.choice([0, 0, 1, 2])):
-            if rng.random() < 0.6:
+            hmode = rng.random()
+            if hmode < 0.35:
                 hx, hl = [a + b - x for x in reversed(xs)], list(reversed(lv))
+            elif hmode < 0.6:
+                hx, hl = trees.ancestor(rng, [float(x) for x in xs], [int(x) for x in lv])   # earlier stage of the same tree
+            elif hmode < 0.7:
+                hx, hl = list(xs), list(lv)                                                    # the same grid set before
             else:
                 hx, hl = trees.gen_tree(rng, a, b, style=rng.choice(["uniform", "left", "right", "graded"]))
                 hx, hl = [float(x) for x in hx], [int(x) for x in hl]
